@@ -189,6 +189,10 @@ class _V:
         if h is not None:
             h(run, kw)
 
+    def awaited(self, kind, ident):
+        """The awaitable handed out by condition / capture ``ident`` is being awaited."""
+        self._hook(self.run, "await-" + kind, ident, {})
+
     # -- conditions --------------------------------------------------------
     def c(self, role, cid, /, **kw):
         run = self.run
